@@ -35,6 +35,7 @@ type ZogIssue struct {
 
 func NewZogIssue() *ZogIssue {
 	e := ZogIssuePool.Get().(*ZogIssue)
+	VerifEmit("get", "issue", "", e)
 	e.Code = ""
 	e.Path = ""
 	e.Value = nil
@@ -103,6 +104,7 @@ func (i *ZogIssue) String() string {
 }
 
 func FreeIssue(i *ZogIssue) {
+	VerifEmit("put", "issue", "", i)
 	ZogIssuePool.Put(i)
 }
 
@@ -127,6 +129,7 @@ type ErrsList struct {
 // internal only
 func NewErrsList() *ErrsList {
 	l := InternalIssueListPool.Get().(*ErrsList)
+	VerifEmit("get", "errslist", "", l)
 	l.List = nil
 	return l
 }
@@ -143,6 +146,7 @@ func (e *ErrsList) IsEmpty() bool {
 }
 
 func (e *ErrsList) Free() {
+	VerifEmit("put", "errslist", "", e)
 	InternalIssueListPool.Put(e)
 }
 
@@ -154,6 +158,7 @@ type ErrsMap struct {
 // Factory for errsMap
 func NewErrsMap() *ErrsMap {
 	m := InternalIssueMapPool.Get().(*ErrsMap)
+	VerifEmit("get", "errsmap", "", m)
 	m.M = nil
 	return m
 }
@@ -180,5 +185,6 @@ func (s *ErrsMap) IsEmpty() bool {
 }
 
 func (s *ErrsMap) Free() {
+	VerifEmit("put", "errsmap", "", s)
 	InternalIssueMapPool.Put(s)
 }
